@@ -39,6 +39,9 @@ pub struct Target {
     pub output: Vec<Res>,
     /// files the script writes on success, relative to the project directory
     pub writes: Vec<String>,
+    /// files the script removes on success before writing (leftovers in its output directory)
+    #[serde(default)]
+    pub wipes: Vec<String>,
     #[serde(default)]
     pub exit: i32,
     #[serde(default)]
@@ -53,7 +56,7 @@ pub struct Target {
 
 impl Target {
     pub fn new(name: &str, kind: Kind) -> Target {
-        Target { name: name.to_string(), kind, deps: vec![], input: vec![], output: vec![], writes: vec![], exit: 0, partial: false, gate: None, size: 0, inf: false }
+        Target { name: name.to_string(), kind, deps: vec![], input: vec![], output: vec![], writes: vec![], wipes: vec![], exit: 0, partial: false, gate: None, size: 0, inf: false }
     }
 }
 
@@ -238,6 +241,9 @@ impl Scenario {
         }
         if !t.writes.is_empty() {
             s.push_str(&format!(" write={}", t.writes.join(",")));
+        }
+        if !t.wipes.is_empty() {
+            s.push_str(&format!(" wipe={}", t.wipes.join(",")));
         }
         s
     }
